@@ -342,7 +342,7 @@ def _exec_step(job, case, st, done_steps, res, head_tree):
     if res["sample"] is None or viol:
         res["sample"] = {"history": seqtxt, "outcome": outcome, "exception": exc[:160]}
     if job.get("keep_obs"):
-        res["obs"].append(dict(obs, hist=hist, step=i))
+        res["obs"].append(dict(obs, hist=hist, step=i, violated=bool(viol)))
     if viol:
         for v in viol:
             v["hist"] = hist
@@ -411,3 +411,89 @@ def run_job(job):
         shutil.rmtree(snap, ignore_errors=True)
         shutil.rmtree(os.path.join(os.path.dirname(snap), "objs-" + os.path.basename(snap)), ignore_errors=True)
     return res
+
+
+# --------------------------------------------------------------------------- random histories (code -> spec)
+def _F(c, m):
+    return {"t": "f", "c": c, "m": m, "to": [], "ch": []}
+
+
+def _L(to):
+    return {"t": "l", "c": "", "m": "", "to": list(to), "ch": []}
+
+
+def _D(ch):
+    return {"t": "d", "c": "", "m": "", "to": [], "ch": ch}
+
+
+FILE_KINDS = [_F("A", "644"), _F("B", "odd"), _F("A", "755"), _F("B", "oddnx"), _F("B", "644")]
+LINK_TARGETS = [["..", "od"], ["..", "of"], ["", "p", "od"], ["", "p", "of"], [".git"], [".git", "config"], [".git", "hooks"],
+                ["a"], ["d"], ["e"], ["x"], ["d", "x"], ["..", "ol"], ["."], [".."], ["..", ".."], ["..", "od", "e"],
+                [".git", "hooks", "h"], ["a", "x"]]
+CHILD_LINKS = [["..", "..", "od"], ["..", "..", "of"], ["..", "a"], ["..", ".git", "config"], ["x"], ["", "p", "od", "e"]]
+ROOT_NAMES = [["a"], ["d"], ["e"], ["x"]]
+ODD_NAMES = [[".git"], ["git~1"], [".GIT"], ["..", "of"], ["d", "x"], ["a", "x"], ["d", "e"], [".git", "x"], ["~"]]
+CHILD_NAMES = [["x"], ["e"], ["config"], ["h"], ["of"], ["od"]]
+
+
+def gen_tree(rng, max_entries=3):
+    for _ in range(50):
+        ents = []
+        for _ in range(rng.choice([0, 1, 1, 2, 2, 2, 3][:max(1, 2 * max_entries + 1)]) if max_entries >= 3 else rng.randrange(0, max_entries + 1)):
+            r = rng.random()
+            if r < 0.22:
+                nm = rng.choice(ODD_NAMES)
+                k = rng.choice(FILE_KINDS[:2] + [_L(rng.choice(LINK_TARGETS[:6]))])
+            else:
+                nm = rng.choice(ROOT_NAMES)
+                q = rng.random()
+                if q < 0.3:
+                    k = rng.choice(FILE_KINDS)
+                elif q < 0.65:
+                    k = _L(rng.choice(LINK_TARGETS))
+                else:
+                    ch = []
+                    for cn in rng.sample(CHILD_NAMES, rng.choice([1, 1, 2])):
+                        ch.append({"n": cn, "k": rng.choice(FILE_KINDS) if rng.random() < 0.7 else _L(rng.choice(CHILD_LINKS))})
+                    k = _D(sorted(ch, key=lambda e: e["n"]))
+            ents.append({"n": nm, "k": k})
+        names = [tuple(e["n"]) for e in ents]
+        flat = [p for p, _ in flat_paths(ents)]
+        if len(set(names)) == len(names) and len(set(flat)) == len(flat):
+            return sorted(ents, key=lambda e: e["n"])
+    return []
+
+
+def gen_history(rng, length):
+    prot = rng.choice([{"ntfs": True, "hfs": False}] * 3 + [{"ntfs": False, "hfs": False}, {"ntfs": True, "hfs": True},
+                                                           {"ntfs": False, "hfs": True}])
+    steps = []
+    has_head = False
+    for i in range(length):
+        ops = ["RI", "CO", "COF", "COF", "RH", "RH", "AP"] + (["ST", "ST"] if has_head else [])
+        if i == 0 and prot == {"ntfs": True, "hfs": False} and rng.random() < 0.2:
+            op = "CL"
+        else:
+            op = rng.choice(ops)
+        if op in ("CL", "RH"):
+            has_head = True
+        steps.append({"op": op, "tree": gen_tree(rng), "alts": None, "plan": None})
+    return {"prot": prot, "prefix": steps[:-1], "finals": steps[-1:], "keep_obs": True}
+
+
+def node4(nd):
+    t = nd["t"]
+    if t == "d":
+        return {"t": "d", "c": "", "x": False, "to": []}
+    if t == "l":
+        return {"t": "l", "c": "", "x": False, "to": list(nd["to"])}
+    if t == "g":
+        return {"t": "g", "c": "", "x": False, "to": []}
+    return {"t": "f", "c": nd["c"] + ("!" + nd["perm"] if "perm" in nd else ""), "x": bool(nd["x"]), "to": []}
+
+
+def trace_line(tid, prot, obs):
+    return {"tid": tid, "prot": prot,
+            "steps": [{"op": o["op"], "tree": o["tree"], "res": o["res"],
+                       "fs": [[p, node4(nd)] for p, nd in o["fs"]],
+                       "idx": [[p, node4(nd)] for p, nd in (o["idx"] or [])]} for o in obs]}
